@@ -355,8 +355,9 @@ SPEC = {
         "model that ends with all written frames received (C02_trace_sound, premise c_writing = []) and is run on histories of the real connection (e2e tie)",
         "mocknode (harness/src/mocknode) and harness/src/c02_e2e.rs: the mock's frame trace, the echo of the marker, the merge of "
         "caller-side stamps (submit stamped before the call, outcome after it) with the mock's events by one monotonic clock; an "
-        "accepted skewed observation implies the property for the real history (C02_trace_skew); that the skewed observation of "
-        "a correct run is accepted is argued in docs/C02.md, not proved",
+        "accepted skewed observation implies the property for the real history (C02_trace_skew); the skewed observation of "
+        "a correct run passes every event check (C02_trace_skew_accepts); only the position-based final clause (UnableToAllocStreamId) "
+        "under skew is argued in docs/C02.md, not proved",
         "old_orphans_count in timed cases is accepted within the bracket [count with latest orphaning / earliest reading, count with "
         "earliest orphaning / latest reading]: C02_count_bracket_run",
         "oversized reader cases (> 20 kB) are compared with the driver's native evaluation of the law C02_reader_frames on the stream "
